@@ -129,6 +129,24 @@ func eqActions(a, b []strategy.Action) bool {
 	return true
 }
 
+// stratOutcomeBuild runs a strategy through strategy.ComputeWithOutcome: two
+// outputs, the actions (as numbers) and the outcomes. For inputs shorter than
+// the warm-up a strategy may emit more actions than there are closings; both
+// outputs must still close.
+func stratOutcomeBuild(s strategy.Strategy) func(in []<-chan *asset.Snapshot) []<-chan float64 {
+	return func(in []<-chan *asset.Snapshot) []<-chan float64 {
+		a, o := strategy.ComputeWithOutcome(s, in[0])
+		af := make(chan float64)
+		go func() {
+			defer close(af)
+			for x := range a {
+				af <- float64(x)
+			}
+		}()
+		return []<-chan float64{af, o}
+	}
+}
+
 func stratBuild(s strategy.Strategy) func(in []<-chan *asset.Snapshot) []<-chan strategy.Action {
 	return func(in []<-chan *asset.Snapshot) []<-chan strategy.Action {
 		return []<-chan strategy.Action{s.Compute(in[0])}
@@ -680,6 +698,12 @@ func c03(ctx *run.Ctx) {
 				pipeCase(cc, census, ctx, ns.Name, map[string]any{"pipeline": ns.Name, "n": n, "w_s": ns.Warm}, [][]*asset.Snapshot{snaps}, 1,
 					stratBuild(ns.New()), eqActions)
 				cc.Count("strategy_cases", 1)
+				if n <= 1 || n == ns.Warm-1 || n == 2*ns.Warm+3 {
+					what := ns.Name + " through ComputeWithOutcome"
+					pipeCase(cc, census, ctx, what, map[string]any{"pipeline": what, "n": n, "w_s": ns.Warm}, [][]*asset.Snapshot{snaps}, 2,
+						stratOutcomeBuild(ns.New()), bitsEq)
+					cc.Count("compute_with_outcome_cases", 1)
+				}
 				if cc.WantSample() && n > ns.Warm && si%7 == 3 {
 					cc.Sample(map[string]any{"pipeline": ns.Name, "n": n, "schedules": "4 capacities x {eager, rr, slowprod, slow reader} x GOMAXPROCS {1,16}"})
 				}
